@@ -8,6 +8,9 @@ package main
 //	wr  k=<plain|at|seek|both> bs=<n> m=<b|s> a=<arch> h=<hdropt> l=<lmt> pv=<n> v=<0|1> pre=<hex|-> [pos=<n>] f=<k.j,k.j…|-> c=<0|1> <files…>
 //	    one run. m: b = Encoder.Encode per file; c = Encoder.EncodeWithContext (background context) per file;
 //	    s = StreamEncoder.WriteMessage per message + SequenceCompleted per file.
+//	    cx=<i>.<k> (m=c only): the context handed to the call for file i is CANCELLED after k polls of ctx.Done() (the encoder
+//	    polls once per message, in the dry run and in the real pass); every other call gets context.Background(). Result class ec.
+//	    k=nil: the encoder is made with a NIL writer (encoder.New(nil, …)): result class en ("writer is nil"), NewStream refuses.
 //	    v=1: a stateful, transforming message validator (wrValidator below) instead of the pass-through one.
 //	    rs=1|2: the encoder is NOT new: it was first used on another (write-at) destination — 1: a complete sequence,
 //	    2: an interrupted one (stream: a message without SequenceCompleted; batch: an Encode that failed half-way) — and then
@@ -32,8 +35,10 @@ package main
 //	wrc a= h= l= pv= v= pre= <files…>   cross-configuration: all kinds × buffer sizes × batch/stream on the same input
 //	    → same <configs> <status> <out hex> | differ <cfgA> <cfgB> | rejected
 //
-// results: ok | err (destination/writer error) | ep (protocol validation) | ee (empty messages) | ev (message validator) | eo (other)
-// log entries: w<len>:<taken>[!]  a<len>@<off>:<taken>[!]  s<delta>[!]      (! = the operation failed)
+// results: ok | err (destination/writer error) | ep (protocol validation) | ee (empty messages) | ev (message validator) | ec (ctx.Err() of a
+// cancelled context) | en (nil writer) | eo (other)
+// log entries: w<len>#<digest>:<taken>[!]  a<len>#<digest>@<off>:<taken>[!]  s<delta>[!]      (! = the operation failed;
+// digest = low 32 bits of the FNV-1a 64 of the bytes handed to the operation, all of them, whatever was taken)
 
 import (
 	"bytes"
@@ -57,6 +62,30 @@ func init() {
 	executors["wr"] = execWr
 	executors["wrx"] = execWrX
 	executors["wrc"] = execWrC
+}
+
+// ---- a context that is cancelled after a given number of polls of Done()
+
+type wrCtx struct {
+	context.Context
+	polls, limit int
+}
+
+var wrClosed = func() chan struct{} { c := make(chan struct{}); close(c); return c }()
+
+func (c *wrCtx) Done() <-chan struct{} {
+	if c.polls >= c.limit {
+		return wrClosed
+	}
+	c.polls++
+	return nil // a nil channel is never ready: the select takes its default branch
+}
+
+func (c *wrCtx) Err() error {
+	if c.polls >= c.limit {
+		return context.Canceled
+	}
+	return nil
 }
 
 // ---- destination with an operation log and injected faults
@@ -145,19 +174,19 @@ func (d *wrDest) write(p []byte) (int, error) {
 		t := min(j, len(p))
 		d.store(d.pos, p[:t])
 		d.pos += int64(t)
-		d.log = append(d.log, fmt.Sprintf("w%d:%d", len(p), t))
+		d.log = append(d.log, fmt.Sprintf("w%d#%s:%d", len(p), wrDig(p), t))
 		return t, nil
 	}
 	if j, bad := d.fault(); bad {
 		t := min(j, len(p))
 		d.store(d.pos, p[:t])
 		d.pos += int64(t)
-		d.log = append(d.log, fmt.Sprintf("w%d:%d!", len(p), t))
+		d.log = append(d.log, fmt.Sprintf("w%d#%s:%d!", len(p), wrDig(p), t))
 		return t, errWrInjected
 	}
 	d.store(d.pos, p)
 	d.pos += int64(len(p))
-	d.log = append(d.log, fmt.Sprintf("w%d:%d", len(p), len(p)))
+	d.log = append(d.log, fmt.Sprintf("w%d#%s:%d", len(p), wrDig(p), len(p)))
 	return len(p), nil
 }
 
@@ -166,17 +195,17 @@ func (d *wrDest) writeAt(p []byte, off int64) (int, error) {
 	if j, sh := d.short(); sh {
 		t := min(j, len(p))
 		d.store(off, p[:t])
-		d.log = append(d.log, fmt.Sprintf("a%d@%d:%d", len(p), off, t))
+		d.log = append(d.log, fmt.Sprintf("a%d#%s@%d:%d", len(p), wrDig(p), off, t))
 		return t, nil
 	}
 	if j, bad := d.fault(); bad {
 		t := min(j, len(p))
 		d.store(off, p[:t])
-		d.log = append(d.log, fmt.Sprintf("a%d@%d:%d!", len(p), off, t))
+		d.log = append(d.log, fmt.Sprintf("a%d#%s@%d:%d!", len(p), wrDig(p), off, t))
 		return t, errWrInjected
 	}
 	d.store(off, p)
-	d.log = append(d.log, fmt.Sprintf("a%d@%d:%d", len(p), off, len(p)))
+	d.log = append(d.log, fmt.Sprintf("a%d#%s@%d:%d", len(p), wrDig(p), off, len(p)))
 	return len(p), nil
 }
 
@@ -224,6 +253,8 @@ func (w wrBoth) Seek(o int64, wh int) (int64, error)    { return w.d.seek(o, wh)
 func wrNewDest(kind string, pre []byte, pos int, faults map[int]int) (io.Writer, *wrDest) {
 	d := &wrDest{buf: append([]byte(nil), pre...), pos: int64(pos), faults: faults}
 	switch kind {
+	case "nil":
+		return nil, d
 	case "at":
 		return wrAt{d}, d
 	case "seek":
@@ -276,6 +307,7 @@ type wrCfg struct {
 	faults           map[int]int
 	shorts           map[int]int
 	cont             bool
+	cxFile, cxPolls  int // cx=i.k (cxFile = -1: none)
 	files            []wFile
 	faultTokens      string
 	raw              map[string]string
@@ -308,6 +340,19 @@ func wrParse(args []string) (*wrCfg, bool) {
 		}
 		c.first = &wrCfg{pv: atoi(t[0]), arch: atoi(t[1]), hopt: atoi(t[2]), lmt: atoi(t[3]), v: atoi(t[4]), bs: atoi(t[5]), kind: t[6]}
 	}
+	c.cxFile = -1
+	if cx, ok := kv["cx"]; ok {
+		a, b, ok2 := strings.Cut(cx, ".")
+		i, err1 := strconv.Atoi(a)
+		k, err2 := strconv.Atoi(b)
+		if !ok2 || err1 != nil || err2 != nil || i < 0 || k < 0 || c.mode != "c" {
+			return nil, false
+		}
+		c.cxFile, c.cxPolls = i, k
+	}
+	if c.kind == "nil" && (c.app || len(c.pre) > 0) {
+		return nil, false
+	}
 	c.pos = len(c.pre)
 	if p, ok := kv["pos"]; ok {
 		c.pos = atoi(p)
@@ -331,7 +376,7 @@ func wrParse(args []string) (*wrCfg, bool) {
 			}
 			_, dup1 := c.faults[k]
 			_, dup2 := c.shorts[k]
-			if dup1 || dup2 {
+			if dup1 || dup2 || (short && c.cxFile >= 0) {
 				return nil, false
 			}
 			if short {
@@ -367,6 +412,10 @@ func wrErrClass(err error) string {
 		return "ok"
 	case errors.Is(err, errWrInjected), errors.Is(err, io.ErrShortWrite): // the latter: bufio's verdict on a short count without error
 		return "err"
+	case errors.Is(err, context.Canceled):
+		return "ec"
+	case strings.Contains(err.Error(), "writer is nil"):
+		return "en"
 	case errors.Is(err, errWrRejected):
 		return "ev"
 	case errors.Is(err, proto.ErrProtocolViolation):
@@ -462,14 +511,18 @@ func wrRunS(c *wrCfg, faults, shorts map[int]int) (o wrOut, bad bool) {
 		} else {
 			enc = encoder.New(w, c.options()...)
 		}
-		for _, f := range c.files {
+		for fi, f := range c.files {
 			fit, ok := f.toProto(byte(c.arch))
 			if !ok {
 				return o, true
 			}
 			encode := func() error { return enc.Encode(fit) }
 			if c.mode == "c" {
-				encode = func() error { return enc.EncodeWithContext(context.Background(), fit) }
+				var ctx context.Context = context.Background()
+				if fi == c.cxFile {
+					ctx = &wrCtx{Context: context.Background(), limit: c.cxPolls}
+				}
+				encode = func() error { return enc.EncodeWithContext(ctx, fit) }
 			}
 			if !call(encode) && !c.cont {
 				break
@@ -543,6 +596,10 @@ func wrFnv(b []byte) uint64 {
 	}
 	return h
 }
+
+// wrDig: digest of the bytes handed to one destination operation (low 32 bits of FNV-1a 64), part of its log entry: the
+// operation logs of model and implementation agree on WHAT each operation carried, not only on how much
+func wrDig(p []byte) string { return fmt.Sprintf("%08x", uint32(wrFnv(p))) }
 
 // wrLogLen: payload length of a log entry (0 for a seek)
 func wrLogLen(e string) int {
@@ -840,6 +897,12 @@ func wrReuse(rng *Rng) string {
 }
 
 // wrPos: now and then a pre-filled destination is NOT positioned at its end (token " pos=<n>", else "")
+// wrCx: cancel the context of one call after k polls (k up to a little beyond the 2·len polls of the early-check strategy)
+func wrCx(rng *Rng, files []wFile) string {
+	i := rng.Intn(len(files))
+	return fmt.Sprintf(" cx=%d.%d", i, rng.Intn(2*len(files[i].msgs)+2))
+}
+
 func wrPos(rng *Rng, pre string) string {
 	if pre == "-" || rng.Intn(6) != 0 {
 		return ""
@@ -882,8 +945,32 @@ func genEncWriters(emit func(string), tier string, rng *Rng) {
 			ap = " ap=1"
 			count("append-mode")
 		}
-		emit(fmt.Sprintf("wr k=%s bs=%d m=%s %s pre=%s%s%s%s f=- c=%d %s", kind, wrRandSize(rng), mode, g.toks(), pre, wrPos(rng, pre), wrReuse(rng), ap, cont, strings.Join(wrFileTokens(files), " ")))
+		cx := ""
+		if mode == "c" && rng.Intn(2) == 0 {
+			cx = wrCx(rng, files)
+			if rng.Intn(2) == 0 {
+				cont = 1 // go on after the cancelled call
+			}
+			count("ctx-cancel")
+		}
+		if mode != "s" && pre == "-" && ap == "" && rng.Intn(40) == 0 {
+			kind = "nil"
+		}
+		emit(fmt.Sprintf("wr k=%s bs=%d m=%s%s %s pre=%s%s%s%s f=- c=%d %s", kind, wrRandSize(rng), mode, cx, g.toks(), pre, wrPos(rng, pre), wrReuse(rng), ap, cont, strings.Join(wrFileTokens(files), " ")))
 		count("wr/" + mode + "/" + kind)
+		if it%40 == 0 {
+			// directed: the context cancelled at EVERY poll k of one call (0 … 2·len+1: dry run, real pass, never), plain and direct kinds
+			gc := wrGenOpts(rng)
+			fc := wrGenFiles(rng, byte(gc.arch), 1+rng.Intn(2), rng.Intn(2) == 0, true, gc.v1safe(rng))
+			fi := rng.Intn(len(fc))
+			for _, kc := range []string{"plain", wrKinds[1+rng.Intn(3)]} {
+				bsc := wrRandSize(rng)
+				for k := 0; k <= 2*len(fc[fi].msgs)+1; k++ {
+					emit(fmt.Sprintf("wr k=%s bs=%d m=c cx=%d.%d %s pre=- f=- c=%d %s", kc, bsc, fi, k, gc.toks(), rng.Intn(2), strings.Join(wrFileTokens(fc), " ")))
+					count("ctx-cancel-every-k")
+				}
+			}
+		}
 		count(fmt.Sprintf("files=%d", nfiles))
 		if pre != "-" {
 			count("prefilled")
@@ -990,7 +1077,12 @@ func genEncFaults(emit func(string), tier string, rng *Rng) {
 					kind = "seek"
 				}
 				bs := []int{0, 0, 1, 14, 4096, wrRandSize(rng)}[rng.Intn(6)]
-				emit(fmt.Sprintf("wrx k=%s bs=%d m=%s %s pre=%s%s%s c=0 %s", kind, bs, mode, g.toks(), pre, wrPos(rng, pre), wrReuse(rng), ft))
+				cx := ""
+				if mode == "c" && rng.Intn(2) == 0 {
+					cx = wrCx(rng, files) // every fault point of a run whose context gets cancelled
+					count("wrx-ctx-cancel")
+				}
+				emit(fmt.Sprintf("wrx k=%s bs=%d m=%s%s %s pre=%s%s%s c=0 %s", kind, bs, mode, cx, g.toks(), pre, wrPos(rng, pre), wrReuse(rng), ft))
 				count("wrx/" + mode + "/" + kind)
 			}
 		}
@@ -1024,7 +1116,12 @@ func genEncFaults(emit func(string), tier string, rng *Rng) {
 				fs = append(fs, fmt.Sprintf("%d%s%d", k, sep, []int{0, 0, 1, 2, 5, 13, 14, 1000}[rng.Intn(8)]))
 			}
 			cont := rng.Intn(2)
-			emit(fmt.Sprintf("wr k=%s bs=%d m=%s %s pre=%s%s%s f=%s c=%d %s", kind, wrRandSize(rng), mode, g.toks(), pre, wrPos(rng, pre), wrReuse(rng), strings.Join(fs, ","), cont, ft))
+			cx := ""
+			if mode == "c" && rng.Intn(2) == 0 && !strings.Contains(strings.Join(fs, ","), "s") {
+				cx = wrCx(rng, files)
+				count("wr-faults-ctx-cancel")
+			}
+			emit(fmt.Sprintf("wr k=%s bs=%d m=%s%s %s pre=%s%s%s f=%s c=%d %s", kind, wrRandSize(rng), mode, cx, g.toks(), pre, wrPos(rng, pre), wrReuse(rng), strings.Join(fs, ","), cont, ft))
 			count(fmt.Sprintf("wr-faults/%s/c=%d", mode, cont))
 		}
 	}
